@@ -29,7 +29,6 @@ fn settings() -> UserSettings {
     let mut config = testutils::base_user_config();
     let mut layer = ConfigLayer::empty(ConfigSource::User);
     layer.set_value("debug.commit-timestamp", "2001-02-03T04:05:06+07:00").unwrap();
-    layer.set_value("debug.operation-timestamp", "2001-02-03T04:05:07+07:00").unwrap();
     config.add_layer(layer);
     UserSettings::from_config(config).unwrap()
 }
@@ -46,6 +45,23 @@ impl Names {
     }
     fn change_known(&self, id: &ChangeId) -> u64 {
         self.changes.get(id).copied().unwrap_or(999_999)
+    }
+    /// Registers every change id reachable from the view of `repo` (operations of the DAG
+    /// may contain commits created by a reconciliation, with ids the harness never saw).
+    fn absorb(&mut self, repo: &ReadonlyRepo) {
+        let mut ids: Vec<CommitId> = repo.view().heads().iter().cloned().collect();
+        ids.sort();
+        for h in ids {
+            let mut chain = vec![];
+            let mut cur = repo.store().get_commit(&h).unwrap();
+            while cur.id() != repo.store().root_commit_id() {
+                chain.push(cur.clone());
+                cur = repo.store().get_commit(&cur.parent_ids()[0]).unwrap();
+            }
+            for c in chain.iter().rev() {
+                self.change(c.change_id());
+            }
+        }
     }
     fn next_desc(&mut self) -> (u64, String) {
         self.descs += 1;
@@ -117,15 +133,44 @@ struct SideStats {
     wc_ops: u64,
 }
 
-/// Random edits on one side. `visible` = commits this side may pick (non-root).
+fn visible_commits(repo: &ReadonlyRepo) -> Vec<Commit> {
+    let mut heads: Vec<CommitId> = repo.view().heads().iter().cloned().collect();
+    heads.sort();
+    let mut out: Vec<Commit> = vec![];
+    for h in heads {
+        let mut chain = vec![];
+        let mut cur = repo.store().get_commit(&h).unwrap();
+        while cur.id() != repo.store().root_commit_id() {
+            chain.push(cur.clone());
+            cur = repo.store().get_commit(&cur.parent_ids()[0]).unwrap();
+        }
+        for c in chain.into_iter().rev() {
+            if !out.iter().any(|x| x.id() == c.id()) {
+                out.push(c);
+            }
+        }
+    }
+    out
+}
+
+/// Random edits on one side, started from `repo`.  The side may rewrite/abandon only the
+/// visible commits whose position (in `visible_commits`) is in `allowed_rewrite`.
 fn random_side(
     rng: &mut Rng,
     names: &mut Names,
     repo: &Arc<ReadonlyRepo>,
-    base_commits: &[Commit],
-    allowed_rewrite: &[usize],
+    allowed_mask: u64,
     race: Option<u8>,
 ) -> (Arc<ReadonlyRepo>, SideStats) {
+    let base_commits_v = visible_commits(repo);
+    let base_commits: &[Commit] = &base_commits_v;
+    let allowed_rewrite_v: Vec<usize> = (0..base_commits.len())
+        .filter(|i| {
+            let ch = names.change_known(base_commits[*i].change_id());
+            (allowed_mask >> (ch % 60)) & 1 == 1
+        })
+        .collect();
+    let allowed_rewrite: &[usize] = &allowed_rewrite_v;
     let mut tx = repo.start_transaction();
     let root = repo.store().root_commit_id().clone();
     let mut st = SideStats { creates: 0, rewrites: 0, abandons: 0, bookmark_ops: 0, wc_ops: 0 };
@@ -137,7 +182,7 @@ fn random_side(
             let name = RefNameBuf::from("b0");
             if rng.chance(1, 6) {
                 tx.repo_mut().set_local_bookmark_target(&name, RefTarget::absent());
-            } else {
+            } else if !base_commits.is_empty() {
                 let c = rng.pick(base_commits);
                 tx.repo_mut().set_local_bookmark_target(&name, RefTarget::normal(c.id().clone()));
             }
@@ -147,7 +192,7 @@ fn random_side(
             let name = WorkspaceNameBuf::from("w0");
             if rng.chance(1, 5) {
                 let _ = tx.repo_mut().remove_workspace(&name).block_on();
-            } else {
+            } else if !base_commits.is_empty() {
                 let c = rng.pick(base_commits);
                 let _ = tx.repo_mut().set_wc_commit(name, c.id().clone());
             }
@@ -222,18 +267,67 @@ fn random_side(
         }
     }
     tx.repo_mut().rebase_descendants().block_on().unwrap();
+    std::thread::sleep(std::time::Duration::from_millis(2)); // distinct operation end times
     (tx.write("side").block_on().unwrap().leave_unpublished(), st)
 }
 
-fn one_case(rng: &mut Rng) -> (String, bool, String) {
-    let settings = settings();
-    let test_repo = TestRepo::init_with_settings(&settings);
-    let repo0 = test_repo.repo.clone();
-    let loader = repo0.loader().clone();
-    let root = repo0.store().root_commit_id().clone();
-    let mut names = Names { changes: HashMap::new(), descs: 0 };
+const FAIL_TERM: &str = "(C13.mk_case [] [] (C13.mk_view [] [] []) true)";
 
-    // base repository
+/// Operations of the case, in creation order.
+struct Dag {
+    nodes: Vec<Arc<ReadonlyRepo>>,
+}
+
+impl Dag {
+    fn add(&mut self, r: &Arc<ReadonlyRepo>) -> usize {
+        self.nodes.push(r.clone());
+        self.nodes.len() - 1
+    }
+    fn term(&self, names: &mut Names, heads: &[usize], merged: &ReadonlyRepo) -> String {
+        for n in &self.nodes {
+            names.absorb(n);
+        }
+        // rank = position in the order of OperationByEndTime (end time, then id)
+        let mut order: Vec<usize> = (0..self.nodes.len()).collect();
+        order.sort_by(|a, b| {
+            let (oa, ob) = (self.nodes[*a].operation(), self.nodes[*b].operation());
+            oa.metadata().time.end.cmp(&ob.metadata().time.end).then_with(|| oa.id().cmp(ob.id()))
+        });
+        let mut rank = vec![0u64; self.nodes.len()];
+        for (r, i) in order.iter().enumerate() {
+            rank[*i] = r as u64;
+        }
+        let nodes: Vec<String> = self
+            .nodes
+            .iter()
+            .enumerate()
+            .map(|(i, n)| {
+                let parents: Vec<usize> = n
+                    .operation()
+                    .parent_ids()
+                    .iter()
+                    .filter_map(|p| self.nodes.iter().position(|m| m.operation().id() == p))
+                    .collect();
+                assert!(parents.iter().all(|p| *p < i));
+                format!(
+                    "(C13.mk_node {} {} {})",
+                    coq::list(parents.iter(), |p| format!("{p}%nat")),
+                    rank[i],
+                    view_term(n, names)
+                )
+            })
+            .collect();
+        format!(
+            "(C13.mk_case {} {} {} false)",
+            coq::list(nodes.iter(), |x| x.clone()),
+            coq::list(heads.iter(), |h| format!("{h}%nat")),
+            view_term(merged, names)
+        )
+    }
+}
+
+fn new_base(rng: &mut Rng, names: &mut Names, repo0: &Arc<ReadonlyRepo>) -> Arc<ReadonlyRepo> {
+    let root = repo0.store().root_commit_id().clone();
     let mut tx = repo0.start_transaction();
     let n0 = 3 + rng.usize(3);
     let mut base_commits: Vec<Commit> = vec![];
@@ -265,64 +359,207 @@ fn one_case(rng: &mut Rng) -> (String, bool, String) {
             tx.repo_mut().set_wc_commit(WorkspaceNameBuf::from(format!("w{w}")), c.id().clone()).unwrap();
         }
     }
-    let base = tx.write("base").block_on().unwrap().leave_unpublished();
+    std::thread::sleep(std::time::Duration::from_millis(2));
+    tx.write("base").block_on().unwrap().leave_unpublished()
+}
 
-    // which base commits each side may rewrite/abandon: disjoint (3/4) or overlapping (1/4)
+fn reconcile(
+    loader: &jj_lib::repo::RepoLoader,
+    dag: &Dag,
+    heads: &[usize],
+) -> Option<Arc<ReadonlyRepo>> {
+    let ops: Vec<_> = heads.iter().map(|h| dag.nodes[*h].operation().clone()).collect();
+    std::thread::sleep(std::time::Duration::from_millis(2));
+    jjv::catch(|| loader.merge_operations(ops, None, Some("reconcile"), []).block_on().unwrap().0)
+}
+
+/// Corpus case (index 0): O -> A2;  O -> B1 -> B2;  B1 -> C2.  B1 creates bookmark b0 on a new
+/// commit X and rewrites base commit c; B2 moves b0 to a new commit Y and rewrites c again; C2 and
+/// A2 only add commits.  Merged in the order A2, B2, C2: the third head must be merged relative
+/// to B1 (not O), so b0 = Y without conflict and B1's version of c does not come back.
+fn corpus_nested() -> (String, bool, String) {
+    let settings = settings();
+    let test_repo = TestRepo::init_with_settings(&settings);
+    let repo0 = test_repo.repo.clone();
+    let loader = repo0.loader().clone();
+    let root = repo0.store().root_commit_id().clone();
+    let mut names = Names { changes: HashMap::new(), descs: 0 };
+    let mut dag = Dag { nodes: vec![] };
+    let empty = repo0.store().empty_merged_tree();
+    let mut write = |tx: jj_lib::transaction::Transaction| {
+        std::thread::sleep(std::time::Duration::from_millis(2));
+        tx.write("t").block_on().unwrap().leave_unpublished()
+    };
+    // O: commit c with child k, workspace w0 on k
+    let mut tx = repo0.start_transaction();
+    let mut mk = |m: &mut MutableRepo, parent: &CommitId, names: &mut Names| {
+        let (_, d) = names.next_desc();
+        let c = m.new_commit(vec![parent.clone()], empty.clone()).set_description(d).write_unwrap();
+        names.change(c.change_id());
+        c
+    };
+    let c = mk(tx.repo_mut(), &root, &mut names);
+    let k = mk(tx.repo_mut(), c.id(), &mut names);
+    tx.repo_mut().set_wc_commit(WorkspaceNameBuf::from("w0"), k.id().clone()).unwrap();
+    let o = write(tx);
+    let io = dag.add(&o);
+    // A2 from O: a new commit
+    let mut tx = o.start_transaction();
+    mk(tx.repo_mut(), &root, &mut names);
+    let a2 = write(tx);
+    // B1 from O: new commit X with bookmark b0, rewrite c
+    let mut tx = o.start_transaction();
+    let x = mk(tx.repo_mut(), &root, &mut names);
+    tx.repo_mut().set_local_bookmark_target(&RefNameBuf::from("b0"), RefTarget::normal(x.id().clone()));
+    let (_, d) = names.next_desc();
+    let c1 = tx.repo_mut().rewrite_commit(&c).set_description(d).write_unwrap();
+    tx.repo_mut().rebase_descendants().block_on().unwrap();
+    let b1 = write(tx);
+    let ib1 = dag.add(&b1);
+    // B2 from B1: new commit Y, move b0 there, rewrite c again
+    let mut tx = b1.start_transaction();
+    let y = mk(tx.repo_mut(), &root, &mut names);
+    tx.repo_mut().set_local_bookmark_target(&RefNameBuf::from("b0"), RefTarget::normal(y.id().clone()));
+    let (_, d) = names.next_desc();
+    tx.repo_mut().rewrite_commit(&c1).set_description(d).write_unwrap();
+    tx.repo_mut().rebase_descendants().block_on().unwrap();
+    let b2 = write(tx);
+    // C2 from B1: a new commit on top of B1's version of c's child
+    let mut tx = b1.start_transaction();
+    let kids = visible_commits(&b1);
+    let top = kids.iter().find(|cc| cc.change_id() == k.change_id()).unwrap().clone();
+    mk(tx.repo_mut(), top.id(), &mut names);
+    let c2 = write(tx);
+    let ia2 = dag.add(&a2);
+    let ib2 = dag.add(&b2);
+    let ic2 = dag.add(&c2);
+    let _ = (io, ib1);
+    let heads = vec![ia2, ib2, ic2];
+    match reconcile(&loader, &dag, &heads) {
+        Some(m) => (dag.term(&mut names, &heads, &m), true, "corpus nested-ancestor A2,B2,C2".into()),
+        None => (FAIL_TERM.into(), false, "merge panic".into()),
+    }
+}
+
+fn one_case(rng: &mut Rng) -> (String, bool, String) {
+    let settings = settings();
+    let test_repo = TestRepo::init_with_settings(&settings);
+    let repo0 = test_repo.repo.clone();
+    let loader = repo0.loader().clone();
+    let mut names = Names { changes: HashMap::new(), descs: 0 };
+    let mut dag = Dag { nodes: vec![] };
+    let base = new_base(rng, &mut names, &repo0);
+    let io = dag.add(&base);
+
+    // which changes each line of history may rewrite/abandon: disjoint (3/4) or shared (1/4)
     let overlapping = rng.chance(1, 4);
-    let mut a1 = vec![];
-    let mut a2 = vec![];
-    for i in 0..n0 {
-        if overlapping {
-            a1.push(i);
-            a2.push(i);
-        } else if rng.chance(1, 2) {
-            a1.push(i);
-        } else {
-            a2.push(i);
-        }
-    }
+    let all: u64 = u64::MAX;
+    let m1: u64 = if overlapping { all } else { rng.next_u64() };
+    let m2: u64 = if overlapping { all } else { !m1 };
     let race = if rng.chance(1, 4) { Some(rng.below(2) as u8) } else { None };
-    let (side1, st1) = random_side(rng, &mut names, &base, &base_commits, &a1, race);
-    let (side2, st2) = random_side(rng, &mut names, &base, &base_commits, &a2, race);
-    // a third concurrent transaction in 1/4 of the cases
-    let third = if rng.chance(1, 4) {
-        let a3: Vec<usize> = if overlapping { (0..n0).collect() } else { vec![] };
-        Some(random_side(rng, &mut names, &base, &base_commits, &a3, race))
+    let kind = rng.below(100);
+    let mut stats: Vec<SideStats> = vec![];
+    let heads: Vec<usize>;
+    let shape_kind: &str;
+    if kind < 30 {
+        // nested: two or three heads share an ancestor B1 that the lonely head(s) do not have
+        shape_kind = "nested";
+        let brace = if rng.chance(1, 2) { Some(0u8) } else { race };
+        let (b1, s) = random_side(rng, &mut names, &base, m2, brace);
+        stats.push(s);
+        let ib1 = dag.add(&b1);
+        let _ = ib1;
+        let mut hs = vec![];
+        let (a2, s) = random_side(rng, &mut names, &base, m1, race);
+        stats.push(s);
+        hs.push(dag.add(&a2));
+        let n_inner = if rng.chance(1, 4) { 3 } else { 2 };
+        for _ in 0..n_inner {
+            let r = if rng.chance(1, 2) { brace } else { None };
+            let (x, s) = random_side(rng, &mut names, &b1, m2, r);
+            stats.push(s);
+            hs.push(dag.add(&x));
+        }
+        if rng.chance(1, 5) {
+            let (a3, s) = random_side(rng, &mut names, &base, 0, None);
+            stats.push(s);
+            hs.push(dag.add(&a3));
+        }
+        // lonely head first in half of the cases, otherwise any order
+        if rng.chance(1, 2) {
+            let mut tail: Vec<usize> = hs[1..].to_vec();
+            rng.shuffle(&mut tail);
+            hs.truncate(1);
+            hs.extend(tail);
+        } else {
+            rng.shuffle(&mut hs);
+        }
+        heads = hs;
+    } else if kind < 40 {
+        // criss-cross: two reconciliations of the same pair with swapped parents, continued
+        shape_kind = "criss-cross";
+        let (a, s) = random_side(rng, &mut names, &base, m1, race);
+        stats.push(s);
+        let (b, s) = random_side(rng, &mut names, &base, m2, race);
+        stats.push(s);
+        let ia = dag.add(&a);
+        let ib = dag.add(&b);
+        let Some(x1) = reconcile(&loader, &dag, &[ia, ib]) else {
+            return (FAIL_TERM.into(), false, "merge panic".into());
+        };
+        let Some(x2) = reconcile(&loader, &dag, &[ib, ia]) else {
+            return (FAIL_TERM.into(), false, "merge panic".into());
+        };
+        let i1 = dag.add(&x1);
+        let i2 = dag.add(&x2);
+        names.absorb(&x1);
+        names.absorb(&x2);
+        let mut hs = vec![];
+        if rng.chance(2, 3) {
+            let (y1, s) = random_side(rng, &mut names, &x1, m1, None);
+            stats.push(s);
+            hs.push(dag.add(&y1));
+        } else {
+            hs.push(i1);
+        }
+        if rng.chance(2, 3) {
+            let (y2, s) = random_side(rng, &mut names, &x2, m2, None);
+            stats.push(s);
+            hs.push(dag.add(&y2));
+        } else {
+            hs.push(i2);
+        }
+        rng.shuffle(&mut hs);
+        heads = hs;
     } else {
-        None
-    };
-    let mut sides: Vec<&Arc<ReadonlyRepo>> = vec![&side1, &side2];
-    if let Some((s3, _)) = &third {
-        sides.push(s3);
+        // flat: two or three (1/4) concurrent transactions from the same operation
+        shape_kind = "flat";
+        let (s1, st) = random_side(rng, &mut names, &base, m1, race);
+        stats.push(st);
+        let (s2, st) = random_side(rng, &mut names, &base, m2, race);
+        stats.push(st);
+        let mut hs = vec![dag.add(&s1), dag.add(&s2)];
+        if rng.chance(1, 4) {
+            let (s3, st) = random_side(rng, &mut names, &base, if overlapping { all } else { 0 }, race);
+            stats.push(st);
+            hs.push(dag.add(&s3));
+        }
+        rng.shuffle(&mut hs);
+        heads = hs;
     }
-    rng.shuffle(&mut sides);
-    let first_is_1 = Arc::ptr_eq(sides[0], &side1);
-    let ops: Vec<_> = sides.iter().map(|r| r.operation().clone()).collect();
-    let merged = jjv::catch(|| loader.merge_operations(ops, None, Some("reconcile"), []).block_on().unwrap().0);
-    let fail_term = "(C13.mk_case (C13.mk_view [] [] []) (C13.mk_view [] [] []) (C13.mk_view [] [] []) None (C13.mk_view [] [] []) true)";
-    let Some(merged) = merged else {
-        return (fail_term.into(), false, "merge panic".into());
+    let _ = io;
+    let Some(merged) = reconcile(&loader, &dag, &heads) else {
+        return (FAIL_TERM.into(), false, "merge panic".into());
     };
-    let term = coq::app(
-        "C13.mk_case",
-        &[
-            view_term(sides[0], &names),
-            view_term(&base, &names),
-            view_term(sides[1], &names),
-            match sides.get(2) {
-                Some(r) => format!("(Some {})", view_term(r, &names)),
-                None => "None".into(),
-            },
-            view_term(&merged, &names),
-            "false".into(),
-        ],
-    );
+    let term = dag.term(&mut names, &heads, &merged);
     let total = |s: &SideStats| s.creates + s.rewrites + s.abandons + s.bookmark_ops + s.wc_ops;
-    let rew = st1.rewrites + st1.abandons + st2.rewrites + st2.abandons;
-    let nontrivial = total(&st1) > 0 && total(&st2) > 0;
+    let rew: u64 = stats.iter().map(|s| s.rewrites + s.abandons).sum();
+    let nontrivial = stats.iter().filter(|s| total(s) > 0).count() >= 2;
+    let refs_sides = stats.iter().filter(|s| s.bookmark_ops + s.wc_ops > 0).count();
     let shape = format!(
-        "{}{}{} rewrites={} refs={}",
-        if third.is_some() { "3-way " } else { "" },
+        "{} heads={} {}{} rewrites={} refs={}",
+        shape_kind,
+        heads.len(),
         if overlapping { "overlap" } else { "disjoint" },
         match race {
             Some(0) => " bookmark-race",
@@ -330,15 +567,12 @@ fn one_case(rng: &mut Rng) -> (String, bool, String) {
             None => "",
         },
         rew.min(2),
-        if (st1.bookmark_ops > 0 && st2.bookmark_ops > 0) || (st1.wc_ops > 0 && st2.wc_ops > 0) {
-            "both-sides"
-        } else if st1.bookmark_ops + st2.bookmark_ops + st1.wc_ops + st2.wc_ops > 0 {
-            "one-side"
-        } else {
-            "none"
+        match refs_sides {
+            0 => "none",
+            1 => "one-line",
+            _ => "several-lines",
         },
     );
-    let _ = first_is_1;
     (term, nontrivial, shape)
 }
 
@@ -351,11 +585,11 @@ fn main() {
         let _ = BTreeMap::<u8, u8>::new();
         for i in ctx.indices() {
             let mut rng = ctx.rng(i);
-            let (term, nontrivial, shape) = match jjv::catch(|| one_case(&mut rng)) {
+            let (term, nontrivial, shape) = match jjv::catch(|| if i == 0 { corpus_nested() } else { one_case(&mut rng) }) {
                 Some(x) => x,
                 None => {
                     ctx.panicked();
-                    ("(C13.mk_case (C13.mk_view [] [] []) (C13.mk_view [] [] []) (C13.mk_view [] [] []) None (C13.mk_view [] [] []) true)".into(), false, "harness panic".into())
+                    (FAIL_TERM.into(), false, "harness panic".into())
                 }
             };
             ctx.emit(i, term, nontrivial, &shape);
